@@ -140,7 +140,15 @@ func (err *yamlParseError) Error() string {
 			}
 		}
 	}
-	linestr, line, column := getLineByOffset(err.contents, index+1)
+	// the index counts the characters, not the bytes
+	offset := len(err.contents)
+	for i := range err.contents {
+		if index--; index < 0 {
+			offset = i
+			break
+		}
+	}
+	linestr, line, column := getLineByOffset(err.contents, offset+1)
 	return fmt.Sprintf("invalid yaml: %s:%d\n%s  %s",
 		err.fname, line, formatLineInfo(linestr, line, column), message)
 }
